@@ -3,6 +3,8 @@ C05 — relative URIs resolve against the innermost base; xml:base / xml:lang sc
 Model: FeedVerif/Model/Base.lean.
 -/
 import FeedVerif.Model.Base
+import FeedVerif.Model.Mixin
+import FeedVerif.Props.C19
 
 namespace FeedVerif.Base
 
@@ -131,3 +133,120 @@ example : Balanced [.start (some "a/") none, .start none (some "fr"), .stop, .st
     (Balanced.wrap none none [] [] Balanced.nil Balanced.nil)
 
 end FeedVerif.Base
+
+
+namespace FeedVerif.Mixin
+
+/-! ### element-level URIs of link elements (M-mixin stage 4): resolved against the base in effect INSIDE the element
+
+`_start_link` runs after `unknown_starttag` has applied the element's own `xml:base` (the model's `startPre`), and resolves the href
+with `resolve_uri` = `_urljoin(self.baseuri or "", ·)` (the parameter `o.join`).  The two theorems below say: (1) the base the handler
+sees is exactly M-base's state after this start tag — so everything Props/C05 proves about the effective base (`effective_base`,
+`balanced_restores`, `sibling_sees_enclosing`, `unsafe_xmlbase_ignored`) applies to it; (2) whatever of url / uri / href the element
+carries, the stored href is the join of THAT value against THAT base — never the raw value, never another base. -/
+
+/-- the raw reference `_enforce_href` picks: the first PRESENT of url, uri, href -/
+def rawHref (a : List (Str × Str)) : Option Str :=
+  (sget a (S "url")).orElse fun _ => (sget a (S "uri")).orElse fun _ => sget a (S "href")
+
+theorem href_key_ne : (S "href" == S "url") = false ∧ (S "href" == S "uri") = false ∧ (S "rel" == S "href") = false ∧ (S "type" == S "href") = false ∧
+    (S "rel" == S "url") = false ∧ (S "type" == S "url") = false ∧ (S "rel" == S "uri") = false ∧ (S "type" == S "uri") = false := by decide +kernel
+
+/-- after `_enforce_href` the `href` entry is the picked reference when that is non-empty, else whatever `href` was -/
+theorem enforceHref_href (a : List (Str × Str)) :
+    sget (enforceHref a) (S "href") = match rawHref a with
+      | some h => if h.isEmpty then sget a (S "href") else some h
+      | none => sget a (S "href") := by
+  unfold enforceHref rawHref
+  cases h : (sget a (S "url")).orElse fun _ => (sget a (S "uri")).orElse fun _ => sget a (S "href") with
+  | none => rfl
+  | some v =>
+    simp only
+    split
+    · rfl
+    · exact sget_sset_same _ _ _
+
+/-- (1) the state the start handler runs in has M-base's state after this element's start tag -/
+theorem handler_sees_inner_base (o : Ops) (c : Core) (tag : Str) (attrs : List (Str × Str)) :
+    (startPre o c tag attrs).1.base =
+      Base.step o.base c.base (.start
+        (((sget (dictOf (attrs.map (normAttr o.loose))) (S "xml:base")).orElse fun _ => sget (dictOf (attrs.map (normAttr o.loose))) (S "base")).map toBaseStr)
+        (((sget (dictOf (attrs.map (normAttr o.loose))) (S "xml:lang")).orElse fun _ => sget (dictOf (attrs.map (normAttr o.loose))) (S "lang")).map toBaseStr)) := by
+  have hf : ∀ (l : List (Str × Str)) (c0 : Core), (l.foldl (fun st kv =>
+      if (S "xmlns:").isPrefixOf kv.1 then trackNamespace st (some (kv.1.drop 6)) kv.2
+      else if kv.1 == S "xmlns" then trackNamespace st none kv.2 else st) c0).base = c0.base := by
+    intro l
+    induction l with
+    | nil => intro c0; rfl
+    | cons x rest ih =>
+      intro c0
+      simp only [List.foldl_cons]
+      have ht : ∀ p u, (trackNamespace c0 p u).base = c0.base := by
+        intro p u; unfold trackNamespace; simp only; split <;> rfl
+      split
+      · rw [ih, ht]
+      · split
+        · rw [ih, ht]
+        · rw [ih]
+  unfold startPre
+  simp only
+  split
+  · split <;> rw [hf]
+  · rw [hf]
+
+/-- (2) **the href a link element stores is the picked reference joined against the current base** — for every attribute dict, every
+state, every `_urljoin` -/
+theorem link_href_resolved (o : Ops) (c : Core) (a : List (Str × Str)) :
+    sget (linkAttrs o c a) (S "href") =
+      (sget (enforceHref (sdefault (sdefault a (S "rel") (S "alternate")) (S "type")
+        (if sget (sdefault a (S "rel") (S "alternate")) (S "rel") == some (S "self") then S "application/atom+xml" else S "text/html"))) (S "href")).map
+        (o.join c.base.baseuri.toList) := by
+  unfold linkAttrs
+  simp only
+  split
+  · rename_i h hh
+    rw [hh]
+    exact sget_sset_same _ _ _
+  · rename_i hh
+    rw [hh]
+    rfl
+
+/-- the defaults `_start_link` adds (rel, type) never touch url / uri / href -/
+theorem sdefault_other (a : List (Str × Str)) (k v k' : Str) (hne : (k == k') = false) : sget (sdefault a k v) k' = sget a k' := by
+  unfold sdefault
+  split
+  · rfl
+  · unfold sget
+    rw [List.find?_append]
+    cases hf : a.find? (·.1 == k') with
+    | some x => simp
+    | none => simp [hne]
+
+/-- …so, put together: with a non-empty reference in url, uri or href (in that order of precedence), the stored href is
+`_urljoin(base, reference)` -/
+theorem link_href_is_join (o : Ops) (c : Core) (a : List (Str × Str)) (h : Str) (hr : rawHref a = some h) (hne : h.isEmpty = false) :
+    sget (linkAttrs o c a) (S "href") = some (o.join c.base.baseuri.toList h) := by
+  obtain ⟨_, _, k3, k4, k5, k6, k7, k8⟩ := href_key_ne
+  rw [link_href_resolved, enforceHref_href]
+  have hraw : rawHref (sdefault (sdefault a (S "rel") (S "alternate")) (S "type")
+      (if sget (sdefault a (S "rel") (S "alternate")) (S "rel") == some (S "self") then S "application/atom+xml" else S "text/html")) = rawHref a := by
+    unfold rawHref
+    simp only [sdefault_other _ _ _ _ k3, sdefault_other _ _ _ _ k4, sdefault_other _ _ _ _ k5, sdefault_other _ _ _ _ k6,
+      sdefault_other _ _ _ _ k7, sdefault_other _ _ _ _ k8]
+  rw [hraw, hr]
+  simp [hne]
+
+/-- non-vacuity and the guard of the source fingerprints (an empty `stage4L` makes `<link>` unmodelled): an Atom entry whose link carries
+its own `xml:base` — the href is joined against the INNER base, the sibling after it sees the outer base again -/
+example :
+    let o : Ops := { base := ⟨fun _ r => r, fun u => u, fun b r => b ++ r⟩, join := fun b u => b ++ S "|" ++ u, fix := id, loose := false }
+    let start : MSt := { c := { entries := [{}], inentry := true, infeed := true, version := S "atom10", base := ⟨"http://outer/", none, ["http://outer/"], [none]⟩ } }
+    (match mrun o start [.start (S "link") [(S "xml:base", S "http://inner/"), (S "href", S "a.html")], .stop (S "link"),
+                         .start (S "link") [(S "rel", S "self"), (S "href", S "b.xml")], .stop (S "link")] with
+     | .ok s' => (s'.c.entries.head?.bind fun e => dget e.d (S "link"), s'.c.entries.head?.bind fun e => dget e.d (S "links"))
+     | .unmodelled _ => (none, none)) =
+    (some (.s (S "http://inner/|a.html")),
+     some (.l [[(S "xml:base", some (S "http://inner/")), (S "href", some (S "http://inner/|a.html")), (S "rel", some (S "alternate")), (S "type", some (S "text/html"))],
+               [(S "rel", some (S "self")), (S "href", some (S "http://outer/|b.xml")), (S "type", some (S "application/atom+xml"))]])) := by decide +kernel
+
+end FeedVerif.Mixin
